@@ -127,6 +127,7 @@ def run_fragment(body: Sequence[ast.stmt], names: Dict[str, Any], attrs: Optiona
 
     def fold(e):
         f = Folder(env, attrs)
+        f.attrs = attrs  # the fragment's own dict: attribute stores made by a followed helper are seen by later statements
         f.funcs = dict(funcs or {})
         f.materialise = materialise
         f.ctors = dict(ctors or {})
